@@ -88,7 +88,7 @@ def build_runtime(gendir, objdir, cflags, cc="gcc", defines=()):
 
 
 HARNESS_C = ["alloc_seam.c", "abort_seam.c"]
-HARNESS_CC = ["core.cc", "walker.cc", "ber.cc", "damage.cc", "simrun.cc", "c05.cc", "c07.cc", "c14.cc", "c04.cc", "c15.cc"]
+HARNESS_CC = ["core.cc", "walker.cc", "ber.cc", "damage.cc", "transport.cc", "simrun.cc", "c05.cc", "c07.cc", "c14.cc", "c04.cc", "c15.cc"]
 
 
 def build_harness(objdir, cflags, extra_defs=()):
